@@ -159,6 +159,9 @@ func runC06(c *Ctx) {
 	r.Floor("R06.1", "template functions", len(funcs), 5)
 
 	c06Bindings(c, ht, funcs)
+	importCellText(c, "R06.3", false)
+	c06Rebinds(c)
+	importWriteDiscipline(c, "R06.1", "html")
 	if tmplText != "" {
 		c06Template(c, tmplText, funcs)
 	}
@@ -618,4 +621,102 @@ func isEmptySlice(p *prover, v ssa.Value) bool {
 	}
 	l := p.lenOf(v)
 	return l.isConst() && l.k == 0
+}
+
+// c06Rebinds: the functions the template calls (Rows, Headers, RowClass..) are bound to THIS wrapper on every
+// render: each path of RenderTo to Execute passes a Funcs(m) call, and m is a map made during this render (by
+// RenderTo or by a helper whose result is always freshly allocated), not one kept from an earlier render.
+func c06Rebinds(c *Ctx) {
+	r := c.R
+	fn := renderToOf(c, "html")
+	if fn == nil {
+		return
+	}
+	eff := c.Effects()
+	isTmpl := func(in ssa.Instruction, name string) bool {
+		f := staticCallee(in)
+		return f != nil && funcPkgPath(f) == "html/template" && f.Signature.Recv() != nil && f.Name() == name
+	}
+	// every Funcs call of RenderTo and its helpers installs a map made during this render
+	nf := 0
+	for _, hf := range pkgReach(fn, 2) {
+		eachInstr(hf, func(in ssa.Instruction) {
+			if !isTmpl(in, "Funcs") {
+				return
+			}
+			nf++
+			cc := callCommon(in)
+			m := unwrap(cc.Args[len(cc.Args)-1], true)
+			fresh, why := false, "the function map is "+m.String()
+			switch x := m.(type) {
+			case *ssa.MakeMap:
+				fresh = true
+			case *ssa.Call:
+				if cal := x.Call.StaticCallee(); cal != nil {
+					if sum := eff.sums[cal]; sum != nil && sum.Fresh[0] {
+						fresh = true
+					} else {
+						why = FuncName(cal) + " may hand back a map made by an earlier render (bound to whatever wrapper, table and generator were current then)"
+					}
+				}
+			}
+			r.Check("R06.3", FuncName(hf), fmt.Sprintf("template functions #%d are bound to this wrapper by a map made during this render", nf), in.Pos(), fresh, why)
+		})
+	}
+	// rebinding events of f: Funcs calls, and calls of helpers every successful path of which rebinds
+	var events func(f *ssa.Function, depth int) []ssa.Instruction
+	mustRebind := func(f *ssa.Function, depth int) bool {
+		ev := events(f, depth)
+		if len(ev) == 0 {
+			return false
+		}
+		isEv := func(b *ssa.BasicBlock) bool {
+			for _, e := range ev {
+				if e.Block() == b {
+					return true
+				}
+			}
+			return false
+		}
+		reach := blockReach(f.Blocks[0], isEv)
+		for _, ret := range returnsOf(f) {
+			if reach[ret.Block()] && !isEv(ret.Block()) {
+				return false
+			}
+		}
+		return true
+	}
+	events = func(f *ssa.Function, depth int) []ssa.Instruction {
+		var out []ssa.Instruction
+		eachInstr(f, func(in ssa.Instruction) {
+			if isTmpl(in, "Funcs") {
+				out = append(out, in)
+				return
+			}
+			if cal := staticCallee(in); cal != nil && cal != f && cal.Blocks != nil && funcPkgPath(cal) == funcPkgPath(fn) && depth < 2 && mustRebind(cal, depth+1) {
+				out = append(out, in)
+			}
+		})
+		return out
+	}
+	ev := events(fn, 0)
+	nx := 0
+	eachInstr(fn, func(ex ssa.Instruction) {
+		if !isTmpl(ex, "Execute") && !isTmpl(ex, "ExecuteTemplate") {
+			return
+		}
+		nx++
+		isEv := func(b *ssa.BasicBlock) bool {
+			for _, e := range ev {
+				if e.Block() == b && (b != ex.Block() || instrIndex(e) < instrIndex(ex)) {
+					return true
+				}
+			}
+			return false
+		}
+		reach := blockReach(fn.Blocks[0], isEv)
+		bypass := reach[ex.Block()] && !isEv(ex.Block())
+		r.Check("R06.3", FuncName(fn), fmt.Sprintf("Execute #%d is reached only after the template's functions were rebound", nx), ex.Pos(), !bypass && len(ev) > 0, "a path reaches Execute with the functions of an earlier render")
+	})
+	r.Floor("R06.3", "template executions in RenderTo", nx, 1)
 }
